@@ -12,8 +12,9 @@ prop="$1"; tier="${2:-${VERIF_TIER:-quick}}"
 if [ ! -x bin/mysyncsa ] || [ -n "$(find checker \( -name '*.go' -o -name '*.txt' \) -newer bin/mysyncsa -not -path '*/vendor/*' | head -1)" ]; then
   ./setup.sh >/dev/null || { echo "ANALYSIS-BROKEN property=$prop checker does not build"; exit 2; }
 fi
-bin/mysyncsa check -tier "$tier" "$prop"
+timeout "${MYSYNCSA_TIMEOUT:-3600}" bin/mysyncsa check -tier "$tier" "$prop"
 rc=$?
+if [ $rc -eq 124 ]; then echo "ANALYSIS-BROKEN property=$prop the analysis did not finish within ${MYSYNCSA_TIMEOUT:-3600} s (no verdict)"; rc=2; fi
 if [ "$tier" = "thorough" ] && [ $rc -ne 2 ]; then
   python3 tools/audit.py "$prop" || echo "note: mutation audit could not run (verdict unaffected)"
 fi
